@@ -31,11 +31,12 @@ Theorem vocabulary_by_schema : vocabulary_statement.
 Proof. exact vocabulary_holds. Qed.
 Print Assumptions vocabulary_by_schema.
 
-(* ==== BLOCK A: the pinned schema (take_max missing from the enum).  Stops type-checking when notes/C09-fix-1.diff is
-   applied; then replace BLOCK A by notes/C09-blockB.v and remove the entry from known_findings.d/C09.json. ==== *)
-Theorem emitted_subset_schema_refuted : exists a, mem a py_emitted = true /\ mem a schema_actions = false.
-Proof. exact (not_subset_witness py_emitted schema_actions (eq_refl false <: subset py_emitted schema_actions = false)). Qed.
-Print Assumptions emitted_subset_schema_refuted.
-(* ==== end of BLOCK A ==== *)
+(* After the repairs in /repo the positive statements hold for the regenerated source facts; reverting a repair
+   flips the fact and breaks the proofs below. *)
+(* BLOCK B of coq/Props/C09.v: paste in place of BLOCK A once the fix is applied (after the fix) *)
+Theorem emitted_subset_schema : subset py_emitted schema_actions = true.
+Proof. exact (eq_refl true <: subset py_emitted schema_actions = true). Qed.
+Print Assumptions emitted_subset_schema.
 
-(* BLOCK B (the positive theorems that take over after the fix) is kept ready to paste in notes/C09-blockB.v *)
+
+
